@@ -4,6 +4,9 @@ mod ia;
 mod ia2;
 mod ia3;
 mod ia4;
+mod blockback;
+mod ixb;
+mod archive;
 mod flip;
 mod fs;
 mod ib;
@@ -105,6 +108,16 @@ fn run(cmd: &str, args: &[String], seed: u64, cases: u64, st: &mut Stats) {
             }
             if all || which == "hwm" {
                 ia4::hwm(seed, cases, &mut st, &mut drv);
+            }
+            if all || which == "blockback" {
+                blockback::run(seed, cases, &mut st, &mut drv);
+            }
+            if all || which == "ixb" {
+                ixb::run(seed, cases, &mut st, &mut drv);
+            }
+            if which == "archive" {
+                // C10 file level: sfa archive layout (LsmModel.Fs.Archive); not part of `all` (~ 1400 driver requests per case)
+                archive::run(&mut drv, &mut st, seed, cases);
             }
             st.add("driver.requests", drv.requests);
         }
